@@ -148,7 +148,11 @@ func c03Encode(c C03Case) (stream []byte, frameStarts []int) {
 	return stream, frameStarts
 }
 
+// c03Reread is set by c03RunOnce when reading on after the end changed the outcome.
+var c03Reread string
+
 func c03RunOnce(stream []byte, frag []int, errAt int) (recs []c03Ref, err error, closed bool) {
+	c03Reread = ""
 	rd, d := fakedocker.NewReaderEnding(stream, frag, errAt, c03EndUnexpected)
 	it := dockerlog.ParseLog(rd, otelstorage.Attrs(pcommon.NewMap()))
 	var r logstorage.Record
@@ -162,6 +166,18 @@ func c03RunOnce(stream []byte, frag []int, errAt int) (recs []c03Ref, err error,
 		}
 	}
 	err = it.Err()
+	// A consumer may ask again after the end (the window of every later step of a metric query
+	// does): nothing more comes, and what ended the stream is still what Err reports.
+	for k := 0; k < 2; k++ {
+		if it.Next(&r) {
+			c03Reread = fmt.Sprintf("Next returned a record (%d, %q) after it had returned false (Err was %v)", int64(r.Timestamp), trunc(r.Body), err)
+			break
+		}
+		if err2 := it.Err(); (err2 == nil) != (err == nil) {
+			c03Reread = fmt.Sprintf("Err changed from %v to %v when Next was called again after the end", err, err2)
+			break
+		}
+	}
 	_ = it.Close()
 	rep := d.Done()
 	return recs, err, rep.Closed == 1
@@ -170,6 +186,9 @@ func c03RunOnce(stream []byte, frag []int, errAt int) (recs []c03Ref, err error,
 func c03Compare(stream []byte, frag []int, errAt int, what string) *evid.Violation {
 	want, wantErr := c03RefDecode(stream, errAt)
 	got, err, closed := c03RunOnce(stream, frag, errAt)
+	if c03Reread != "" {
+		return evid.Viol("C03/not-sticky", "%s: %s", what, c03Reread)
+	}
 	for i := 0; i < len(got) && i < len(want); i++ {
 		if got[i].ts != want[i].ts {
 			return evid.Viol("C03/timestamp", "%s: record %d timestamp %d, want %d", what, i, got[i].ts, want[i].ts)
